@@ -24,6 +24,7 @@
 From Scrapli Require Import Bytes Conc Close.
 From Coq Require Import List Arith Bool NArith.
 Import ListNotations.
+Local Open Scope nat_scope.
 
 Definition label_name (l : label) : bytes :=
   match l with
@@ -82,6 +83,7 @@ Definition label_of_name (n : bytes) : option label := label_of_name_in n all_la
 (* ---------- scenario parsing ---------- *)
 
 Definition is (f : bytes) (s : String.string) : bool := beqb f (bs s).
+Arguments is f s%string.
 
 Definition parse_kind (f : bytes) : option kind :=
   if is f "generic" || is f "network" || is f "cli" then Some CLI
@@ -256,3 +258,25 @@ Definition run_c07 (fs : list bytes) : list bytes :=
   else if is name "c07oldtrace" then run_trace true fs
   else if is name "c07thread" then run_thread fs
   else [bs "unknown-case"].
+
+(* ---------- readable witness schedules (used by props/C07.v and the report) ---------- *)
+
+Fixpoint annotate (sy : sys label) (s : state) (sc : sched) : list (tid * option label) :=
+  match sc with
+  | [] => []
+  | (t, c) :: r =>
+      (t, label_at sy s t) ::
+      match nth_error (step sy s t) c with
+      | Some s' => annotate sy s' r
+      | None => annotate sy s r
+      end
+  end.
+
+Definition to_string (b : bytes) : String.string :=
+  fold_right (fun n acc => String.String (Ascii.ascii_of_N n) acc) String.EmptyString b.
+
+(* "thread:label" for every step: the statement the chosen thread executes *)
+Definition show_sched (sy : sys label) (sc : sched) : list String.string :=
+  map (fun tl => to_string (print_dec (N.of_nat (fst tl)) ++ [58%N] ++
+                            match snd tl with Some l => label_name l | None => bs "-" end))
+      (annotate sy (init sy) sc).
